@@ -9,7 +9,7 @@
    emitted is delivered in order; at least InitialRetransmitInterval/2 passes between rounds, which
    the interval law guarantees) completes the handshake on both sides.
    Definitions and the generic soundness of the checker. *)
-From Coq Require Import List NArith Bool Lia FMapPositive.
+From Coq Require Import List NArith Bool Lia.
 From DtlsV Require Import Hs.Hs13 Hs.Hs13Eq.
 Import ListNotations.
 Open Scope N_scope.
@@ -168,43 +168,12 @@ Proof.
   subst. reflexivity.
 Qed.
 
-(* ---------- sets of states: hash buckets in a positive-keyed map ---------- *)
+Definition umem (s : ustate) (R : list ustate) : bool := existsb (ustate_eqb s) R.
 
-Definition mix (h x : N) : N := N.land (h * 1000003 + x + 1) 1073741823.
-Definition hash_list (l : list N) : N := fold_left mix l 7.
-
-Definition ep_feat (e : ep) : list N :=
-  [e_flight e; (match e_fst e with Waiting => 0 | Finished => 1 end); (if e_retr e then 1 else 0);
-   e_recvseq e; e_fbcur e; e_repoch e; e_lepoch e; (if e_est e then 1 else 0);
-   N.of_nat (length (e_frags e)); N.of_nat (length (e_queue e)); N.of_nat (length (e_out e));
-   N.of_nat (length (e_nst e)); hash_list (flat_map frag_key (e_pending e)); hash_list (flat_map frag_key (e_toack e));
-   hash_list (flat_map rec_key (e_queue e)); hash_list (flat_map rec_key (e_out e))].
-
-Definition ustate_hash (s : ustate) : positive :=
-  N.succ_pos (hash_list (ep_feat (u_c s) ++ ep_feat (u_s s) ++
-                         [(if u_rc s then 1 else 0); (if u_rs s then 1 else 0);
-                          hash_list (flat_map dgram_key (u_nc s)); hash_list (flat_map dgram_key (u_ns s))])).
-
-Definition smap := PositiveMap.t (list ustate).
-
-Definition umem (s : ustate) (R : smap) : bool :=
-  match PositiveMap.find (ustate_hash s) R with
-  | Some l => existsb (ustate_eqb s) l
-  | None => false
-  end.
-
-Definition uadd (s : ustate) (R : smap) : smap :=
-  let k := ustate_hash s in
-  PositiveMap.add k (s :: match PositiveMap.find k R with Some l => l | None => [] end) R.
-
-Definition states (R : smap) : list ustate := flat_map snd (PositiveMap.elements R).
-
-Lemma umem_In s R : umem s R = true -> In s (states R).
+Lemma umem_In s R : umem s R = true -> In s R.
 Proof.
-  unfold umem, states. destruct (PositiveMap.find (ustate_hash s) R) as [l|] eqn:E; [|discriminate].
-  intro H. apply existsb_exists in H. destruct H as (x & Hx & He). apply ustate_eqb_ok in He. subst x.
-  apply in_flat_map. exists (ustate_hash s, l). split; [|exact Hx].
-  now apply PositiveMap.elements_correct.
+  unfold umem. intro H. apply existsb_exists in H. destruct H as (x & Hx & He).
+  apply ustate_eqb_ok in He. now subst.
 Qed.
 
 (* ---------- closure computation and the checker ---------- *)
@@ -212,13 +181,13 @@ Qed.
 Definition succs (c : cfg) (s : ustate) : list ustate :=
   flat_map (fun m => match ustep c s m with Some s' => [s'] | None => [] end) (moves_of c s).
 
-Fixpoint add_new (R : smap) (xs : list ustate) (acc : list ustate) : smap * list ustate :=
+Fixpoint add_new (R : list ustate) (xs : list ustate) (acc : list ustate) : list ustate * list ustate :=
   match xs with
   | [] => (R, acc)
-  | x :: xs' => if umem x R then add_new R xs' acc else add_new (uadd x R) xs' (x :: acc)
+  | x :: xs' => if umem x R then add_new R xs' acc else add_new (x :: R) xs' (x :: acc)
   end.
 
-Fixpoint closure (fuel : nat) (c : cfg) (R : smap) (frontier : list ustate) : smap :=
+Fixpoint closure (fuel : nat) (c : cfg) (R : list ustate) (frontier : list ustate) : list ustate :=
   match fuel with
   | O => R
   | S fuel' =>
@@ -230,16 +199,14 @@ Fixpoint closure (fuel : nat) (c : cfg) (R : smap) (frontier : list ustate) : sm
       end
   end.
 
-Definition reach_map (fuel : nat) (c : cfg) : smap :=
-  closure fuel c (uadd (uinit c) (PositiveMap.empty _)) [uinit c].
-Definition reach_set (fuel : nat) (c : cfg) : list ustate := states (reach_map fuel c).
+Definition reach_set (fuel : nat) (c : cfg) : list ustate := closure fuel c [uinit c] [uinit c].
 
-Definition closed (c : cfg) (R : smap) : bool :=
-  umem (uinit c) R && forallb (fun s => forallb (fun s' => umem s' R) (succs c s)) (states R).
+Definition closed (c : cfg) (R : list ustate) : bool :=
+  umem (uinit c) R && forallb (fun s => forallb (fun s' => umem s' R) (succs c s)) R.
 
 Definition live_check (fuel K : nat) (c : cfg) : bool :=
-  let R := reach_map fuel c in
-  closed c R && forallb (live_from K c) (states R).
+  let R := reach_set fuel c in
+  closed c R && forallb (live_from K c) R.
 
 Lemma enabled_in_moves c s m s' : ustep c s m = Some s' -> In m (moves_of c s).
 Proof.
@@ -261,7 +228,7 @@ Proof.
   rewrite H. now left.
 Qed.
 
-Lemma closed_reach c R : closed c R = true -> forall s, Reach c s -> In s (states R).
+Lemma closed_reach c R : closed c R = true -> forall s, Reach c s -> In s R.
 Proof.
   unfold closed. intro H. apply andb_prop in H. destruct H as [Hi Hc].
   intros s Hr. induction Hr as [|s m s' Hr IH Hstep].
@@ -281,7 +248,7 @@ Qed.
 
 (* any boolean state predicate checked over the same closure holds in every reachable state *)
 Theorem closure_invariant fuel c (P : ustate -> bool) :
-  closed c (reach_map fuel c) = true -> forallb P (reach_set fuel c) = true ->
+  closed c (reach_set fuel c) = true -> forallb P (reach_set fuel c) = true ->
   forall s, Reach c s -> P s = true.
 Proof.
   intros Hc Hp s Hr. rewrite forallb_forall in Hp. apply Hp. eapply closed_reach; eauto.
